@@ -74,24 +74,60 @@ CLAIMED = {
    text="For compositions of 1-4 object branches (inline or $ref, disjoint or overlapping property sets) a document is constructed for every subset B of branches to satisfy exactly B (verified per branch by the oracle); allOf must accept iff B is everything, anyOf iff B is non-empty, and accepted documents must bind the union of the branches' properties.",
    note="Branch values keep the JSON type their declaring branch states; strings ASCII. Open findings: same keyword on the same property in two allOf branches is first-wins; anyOf merge mutates an earlier branch's schema (overlaps with different constraints are excluded).",
    design="4 C11"),
+ "C12": dict(
+   technique="metamorphic property-based testing: repeated runs, relocated trees, key-order permutations and separate CLI processes must give byte-identical output",
+   engine="E-static + E-cli",
+   text="Single- and multi-file cases with 6-12 entries in every ordering-relevant map are generated 8 times in-process, from a moved copy of the tree (absolute and relative addressing), from 3 renderings with shuffled object members and (sample) by two CLI processes; all {name -> bytes} maps must be identical. Map-iteration orders are sampled, with map sizes chosen so that a leak shows with high probability per case.",
+   note="Open finding: a file that is both an argument and a $ref target is loaded twice unless the spellings coincide (cross-style comparison only for cases without such files).",
+   design="4 C12"),
+ "C13": dict(
+   technique="metamorphic property-based testing: two random re-spellings of one schema model must generate byte-identical code",
+   engine="E-static",
+   text="One model is rendered twice under random subsets of the listed re-spellings (JSON/YAML block/flow with unquoted numeric/boolean keys, $id/id, $defs/definitions incl. both and upper-case ref prefixes, dependentSchemas/dependencies, type string/list, true/{}); outputs must be byte-identical or both runs fail.",
+   note="Unquoted YAML keys only where the key text is the canonical form of the scalar.",
+   design="4 C13"),
+ "C14": dict(
+   technique="exhaustive class-sequence enumeration + rapid names; go/parser, reflect.StructTag and go/types on the output; decode-binding run",
+   engine="E-static + E-run",
+   text="Every sequence of up to 3 (thorough 4, two representatives) of the 11 character classes the splitter distinguishes is used as property name, definition name, title and file name, plus collision sets and random names with random capitalization lists and tag sets; identifiers must be valid, exported and distinct, each configured tag must carry exactly the property name, the file must type-check and decoding {p_i: v_i} must put v_i in p_i's field.",
+   note="Root-type mappings are used verbatim by the tool. Open findings: tag-breaking characters, comma, empty/dash names, characters encoding/json refuses in tag names, empty definition name (all excluded for property-name layouts).",
+   design="4 C14"),
  "C15": dict(
    technique="exhaustive limit grid + rapid on PrimitiveTypeFromJSONSchemaType (exact interval oracle); flag-on/flag-off program pairs on boundary documents",
    engine="E-direct + E-run",
    text="Part 1 enumerates 13 limit constants x all keyword forms and draws from 36 constants: the chosen type must hold the admitted integer interval, be the narrowest of its signedness, and every probe integer must satisfy 'schema admits x' == 'x in type range and remaining bounds admit x'. Part 2 compiles each integer-heavy schema with and without --min-sized-ints and runs every integer on/next to each bound and type limit: equal verdicts and values, equal to the reference interval.",
    note="R2 (int64-range documents, float64-exact bounds). Open findings: typed integer enums reject everything under the flag; exclusive bounds at +-2^63 are dropped; []uint8 items are treated as byte strings.",
    design="4 C15"),
+ "C16": dict(
+   technique="metamorphic property-based testing: option pairs differing in exactly one option, relations on go/ast level, CLI sample",
+   engine="E-static + E-cli",
+   text="Full-mix schemas are generated under a base option set and with exactly one option toggled; per option an AST-level relation states what may change (only-models: same type declarations and nothing else; tags: only tag literals, exactly the requested keys; capitalization/title/root-type: only identifiers; extra-imports: only the YAML import and methods). A sample also runs the real CLI whose stdout must equal the in-process output.",
+   note="The fixed mapstructure remain-tag of the additional-properties field is not subject to --tags.",
+   design="4 C16"),
  "C17": dict(
    technique="differential property-based testing: the same valid / single-fault document through json.Unmarshal and yaml.Unmarshal (flow and block style) of compiled generated code",
    engine="E-run",
    text="Programs generated with --extra-imports decode each valid or single-fault document (exactly one required/bound/length/pattern/string-enum rule) as JSON, as the same text read as YAML, and as a block-style YAML rendering verified with a second YAML parser; verdicts and re-marshalled values (defaults included) must be equal.",
    note="Type violations are outside the statement's list (yaml.v3 coerces scalars).",
    design="4 C17"),
+ "C18": dict(
+   technique="property-based fault injection: mutated/truncated/random schema bytes, injected ungeneratable elements, bad flags; in-process recover + CLI process observation with file-tree snapshots",
+   engine="E-static + E-cli",
+   text="Type-confusing mutations at random JSON positions, truncations and random bytes must never panic; a schema with exactly one injected ungeneratable element (at property/items/definition sites, inside branches, as an unresolvable branch reference, in a referenced second file) must make the run fail; CLI runs must end with status 0, or non-zero with a diagnostic, empty stdout and an untouched file tree (pre-existing outputs included); a time limit hit is re-run alone with 300 s before it counts as a hang.",
+   note="R8. Never-hangs is bounded observation.",
+   design="4 C18"),
  "C19": dict(
    technique="property-based testing + hostile corpus: every generated unmarshaler on hostile bytes, mutants and truncations with zero and non-zero prior destinations; reflective before/after dump",
    engine="E-run",
    text="Every type with a generated UnmarshalJSON/UnmarshalYAML in full-mix programs is called (json.Unmarshal, direct method, YAML node) on 43 hostile inputs, valid documents, all single-fault mutant families and random truncations, with the destination zero or pre-filled from a valid document; each call runs under recover and a returned error requires the deep dump of the destination to equal the dump taken before the call.",
    note="Open finding: null input panics for structs with typed additionalProperties (that input is excluded for such types).",
    design="4 C19"),
+ "C20": dict(
+   technique="property-based testing over multi-file cases x mappings x argument orders; stateful DoFile histories; AST placement oracle, go/types across packages, go build sample",
+   engine="E-static + go build",
+   text="1-4 files with ids, cross-file references and package/output/root-type mappings: every schema's root type and definitions must be declared once and only in the file mapped to its id, under the right package clause, all packages must type-check together (sample: go build of the emitted tree), and the declarations belonging to a schema must be identical under argument permutations, with an unrelated extra file, and across DoFile histories on one Generator.",
+   note="No reference cycles across packages; ids with a package mapping also get an output mapping. Open finding: two imported packages with the same last path element collide (pool without equal last elements).",
+   design="4 C20"),
 }
 
 def main():
